@@ -1,3 +1,4 @@
 import FcpProps.C01
 import FcpProps.C02
+import FcpProps.C04
 import FcpProps.C16
